@@ -1568,3 +1568,22 @@ Example c07_standardize_inferred_base_differs :
                      cv_data := C07_DInt [[1; 2; 3; 4]; [3; 4; 6; FILL]] |}
   = Some [[0; 1; 2; 3]; [2; 3; 5; FILL]].
 Proof. vm_compute. reflexivity. Qed.
+
+(* ------------------------------------------------------------------------------------- *)
+(* global attributes of the grid's dataset (the UGRID exporter works on a deep copy, so they reach
+   the export): the harness hands them to the model as the attributes of one more, data-less entry
+   named "@global"; c07_ugrid_writable covers it like any variable — an unstorable global
+   attribute (e.g. a None-valued source_grid_spec) makes the export unwritable, storable ones do not *)
+
+Definition c07_ex_global (a : c07_aval) : c07_var :=
+  {| cv_name := c07_code "@global"%string; cv_dims := [];
+     cv_attrs := [(c07_code "title"%string, C07_AStr [c07_code "t"%string]); (c07_code "source_grid_spec"%string, a)];
+     cv_data := C07_DNone |}.
+
+Example c07_ugrid_writable_global_attrs :
+  c07_ds_wfb (c07_ex_small ++ [c07_ex_global C07_AObj]) = true /\
+  c07_writable (uo_ds (c07_encode_ugrid c07_faithful c07_base_template (c07_ex_small ++ [c07_ex_global C07_AObj]))) = false /\
+  c07_writable (uo_ds (c07_encode_ugrid c07_faithful c07_base_template
+                         (c07_ex_small ++ [c07_ex_global (C07_AStr [c07_code "UGRID"%string])]))) = true /\
+  c07_closed (uo_ds (c07_encode_ugrid c07_faithful c07_base_template (c07_ex_small ++ [c07_ex_global C07_AObj]))) = true.
+Proof. repeat split; vm_compute; reflexivity. Qed.
